@@ -191,10 +191,13 @@ pub fn generate(seed: u64, iour_ok: bool) -> Program {
     };
     let main_rt = r.pct(50);
     let sender_rt = r.pct(35);
-    // Known finding C18-join-holds-pool-slot: with a one-slot pool a body that needs the pool
-    // after join has parked its joiner there never gets it (covered by the dedicated scenario);
-    // random programs stay clear of it so that they terminate.
-    let allow_blocking = pool_limit != 1;
+    // Known finding C18-join-holds-pool-slot: join parks its joiner on the blocking pool the
+    // workers use; a body that needs the pool while join is under way can starve for ever (one-slot
+    // pool: no slot left; any limit: the pool thread spawned for the body's job is taken by the
+    // joiner and the worker blocks in AsyncifyPool::dispatch).  The dedicated scenarios cover
+    // that; random programs stay clear of it so that they terminate: no pool use with a one-slot
+    // pool or with faulty workers, and a task that uses the pool is awaited before join.
+    let allow_blocking = pool_limit != 1 && fault == "none";
     let mut tasks = Vec::new();
     for id in 1..=ntasks {
         let kind = if r.pct(20) { "blocking" } else { "async" };
@@ -231,6 +234,17 @@ pub fn generate(seed: u64, iour_ok: bool) -> Program {
                     threads[s].push(Op::Wait { id });
                 }
             }
+            // see allow_blocking above
+            let uses_pool = |id: u32| {
+                tasks
+                    .iter()
+                    .any(|t| t.id == id && t.kind == "async" && t.body.contains(&Step::Blocking))
+            };
+            let (wait, keep): (Vec<u32>, Vec<u32>) = mine[s].iter().partition(|id| uses_pool(**id));
+            mine[s] = keep;
+            for id in wait {
+                threads[s].push(Op::Wait { id });
+            }
         }
     }
     Program {
@@ -246,6 +260,30 @@ pub fn generate(seed: u64, iour_ok: bool) -> Program {
         watchdog_ms: 30_000,
         threads,
         tasks,
+    }
+}
+
+/// Second scenario of the known finding, default pool limit: the task's first step needs the pool
+/// while join is being called; when the pool thread spawned for it picks up the joiner instead,
+/// the worker blocks for ever in AsyncifyPool::dispatch. A race: repeated until it hangs.
+pub fn scenario_poolrace() -> Program {
+    Program {
+        seed: 0,
+        nw: 1,
+        concurrent: true,
+        driver: "poll".into(),
+        fault: "none".into(),
+        pool_limit: 0,
+        main_rt: false,
+        sender_rt: false,
+        join_delay_us: 1500,
+        watchdog_ms: 8_000,
+        threads: vec![vec![Op::Dispatch { id: 1 }]],
+        tasks: vec![TaskSpec {
+            id: 1,
+            kind: "async".into(),
+            body: vec![Step::Blocking, Step::Sleep { ms: 5 }],
+        }],
     }
 }
 
